@@ -5,9 +5,11 @@ From SV Require Import C15.Model C15.ProofsRefresh.
 Import ListNotations.
 Open Scope Z_scope.
 
-(* without a deadline (an empty stream) this is the iteration of ProofsRefresh *)
+(* without a deadline (an empty stream) and without leaderless answers this is the iteration of ProofsRefresh *)
+Definition no_ll : Z -> bool := fun _ => false.
+
 Lemma pass_d_nil : forall answer fuel c tried,
-  pass_d answer fuel c tried [] =
+  pass_d answer no_ll fuel c tried [] =
   let '(c', r, tr) := pass answer fuel c tried in
   (c', match r with Some x => PAnswer x | None => PNoBroker end, tr, []).
 Proof.
@@ -15,25 +17,32 @@ Proof.
   destruct (any c) as [b|]; [|reflexivity]. destruct (answer b); try reflexivity. apply IH.
 Qed.
 
-Lemma refresh_d_unfold : forall answer attempts c tried dl,
-  refresh_d answer attempts c tried dl =
-  let '(c1, st, tr, dl1) := pass_d answer (S (size c)) c tried dl in
+Lemma refresh_d_unfold : forall answer ll adv attempts c tried dl,
+  refresh_d answer ll adv attempts c tried dl =
+  let '(c1, st, tr, dl1) := pass_d answer ll (S (size c)) c tried dl in
   match st with
   | PAnswer x => (c1, x, tr, dl1)
+  | PRetry b =>
+    match attempts with
+    | O => (c1, RSuccess b, tr, dl1)
+    | S a => let '(past, dl2) := pop_dl dl1 in
+             if past then (c1, RSuccess b, tr, dl2)
+             else refresh_d answer ll adv a {| seeds := seeds c1; dead := dead c1; known := adv |} tr dl2
+    end
   | _ =>
     let c2 := match st with PDeadline => c1 | _ => resurrect c1 end in
     match attempts with
     | O => (c2, ROutOfBrokers, tr, dl1)
     | S a => let '(past, dl2) := pop_dl dl1 in
-             if past then (c2, ROutOfBrokers, tr, dl2) else refresh_d answer a c2 tr dl2
+             if past then (c2, ROutOfBrokers, tr, dl2) else refresh_d answer ll adv a c2 tr dl2
     end
   end.
 Proof. intros. destruct attempts; reflexivity. Qed.
 
-Lemma refresh_d_nil : forall answer attempts c tried,
-  refresh_d answer attempts c tried [] = let '(c', r, tr) := refresh answer attempts c tried in (c', r, tr, []).
+Lemma refresh_d_nil : forall answer adv attempts c tried,
+  refresh_d answer no_ll adv attempts c tried [] = let '(c', r, tr) := refresh answer attempts c tried in (c', r, tr, []).
 Proof.
-  intros answer attempts. induction attempts as [|a IH]; intros c tried;
+  intros answer adv attempts. induction attempts as [|a IH]; intros c tried;
     rewrite refresh_d_unfold, refresh_unfold, pass_d_nil;
     destruct (pass answer (S (size c)) c tried) as [[c1 r] tr]; destruct r as [x|]; try reflexivity.
   simpl. apply IH.
@@ -54,38 +63,43 @@ Qed.
 Lemma resurrect_seedset : forall c, same_elements (seedset (resurrect c)) (seedset c).
 Proof. intros c x. unfold seedset, resurrect. simpl. now rewrite app_nil_r. Qed.
 
-Lemma pass_d_inv : forall answer fuel c tried dl c1 st tr dl1,
-  pass_d answer fuel c tried dl = (c1, st, tr, dl1) ->
+Lemma pass_d_inv : forall answer ll fuel c tried dl c1 st tr dl1,
+  pass_d answer ll fuel c tried dl = (c1, st, tr, dl1) ->
   same_elements (seedset c1) (seedset c) /\
   match st with PNoBroker => True | _ => any c1 <> None end.
 Proof.
-  intros answer fuel. induction fuel as [|fuel IH]; intros c tried dl c1 st tr dl1 H; simpl in H.
+  intros answer ll fuel. induction fuel as [|fuel IH]; intros c tried dl c1 st tr dl1 H; simpl in H.
   - injection H as <- <- <- <-. split; [intro; reflexivity|exact I].
   - destruct (any c) as [b|] eqn:A.
     + destruct (pop_dl dl) as [past dl0]. destruct past.
       * injection H as <- <- <- <-. split; [intro; reflexivity|congruence].
       * destruct (answer b).
-        -- injection H as <- <- <- <-. split; [intro; reflexivity|congruence].
+        -- injection H as <- <- <- <-. split; [intro; reflexivity|destruct (ll b); congruence].
         -- destruct (IH _ _ _ _ _ _ _ H) as [S1 S2]. split; [|exact S2].
            intro x. rewrite (S1 x). apply deregister_seedset. exact A.
         -- injection H as <- <- <- <-. split; [intro; reflexivity|congruence].
     + injection H as <- <- <- <-. split; [intro; reflexivity|exact I].
 Qed.
 
-(* every exit: no seed lost, and nobody-to-ask implies nothing is set aside *)
-Theorem refresh_d_exits : forall answer attempts c tried dl c' r tr dl',
-  refresh_d answer attempts c tried dl = (c', r, tr, dl') ->
+(* every exit — an answer, a leaderless answer (after its retries: the re-entry is one of the paths), out of
+   brokers, past the deadline — : no seed lost, and nobody-to-ask implies nothing is set aside *)
+Theorem refresh_d_exits : forall answer ll adv attempts c tried dl c' r tr dl',
+  refresh_d answer ll adv attempts c tried dl = (c', r, tr, dl') ->
   same_elements (seedset c') (seedset c) /\ (any c' = None -> dead c' = []).
 Proof.
-  intros answer attempts. induction attempts as [|a IH]; intros c tried dl c' r tr dl' H;
+  intros answer ll adv attempts. induction attempts as [|a IH]; intros c tried dl c' r tr dl' H;
     rewrite refresh_d_unfold in H;
-    destruct (pass_d answer (S (size c)) c tried dl) as [[[c1 st] tr1] dl1] eqn:P;
-    destruct (pass_d_inv _ _ _ _ _ _ _ _ _ P) as [S1 S2]; destruct st as [x| |].
+    destruct (pass_d answer ll (S (size c)) c tried dl) as [[[c1 st] tr1] dl1] eqn:P;
+    destruct (pass_d_inv _ _ _ _ _ _ _ _ _ _ P) as [S1 S2]; destruct st as [x|b| |].
+  - injection H as <- <- <- <-. split; [exact S1|intro; contradiction].
   - injection H as <- <- <- <-. split; [exact S1|intro; contradiction].
   - injection H as <- <- <- <-. split; [|reflexivity].
     intro x. rewrite (resurrect_seedset c1 x). apply S1.
   - injection H as <- <- <- <-. split; [exact S1|intro; contradiction].
   - injection H as <- <- <- <-. split; [exact S1|intro; contradiction].
+  - destruct (pop_dl dl1) as [past dl2]. destruct past.
+    + injection H as <- <- <- <-. split; [exact S1|intro; contradiction].
+    + destruct (IH _ _ _ _ _ _ _ H) as [T1 T2]. split; [|exact T2]. intro x. rewrite (T1 x). apply S1.
   - destruct (pop_dl dl1) as [past dl2]. destruct past.
     + injection H as <- <- <- <-. split; [|reflexivity]. intro x. rewrite (resurrect_seedset c1 x). apply S1.
     + destruct (IH _ _ _ _ _ _ _ H) as [T1 T2]. split; [|exact T2].
@@ -95,20 +109,44 @@ Proof.
     + destruct (IH _ _ _ _ _ _ _ H) as [T1 T2]. split; [|exact T2]. intro x. rewrite (T1 x). apply S1.
 Qed.
 
+(* the order of the code: resurrectDeadBrokers appends the seeds set aside to the live ones *)
+Lemma resurrect_order : forall c, seeds (resurrect c) = seeds c ++ dead c /\ dead (resurrect c) = [] /\ known (resurrect c) = known c.
+Proof. intros; repeat split. Qed.
+
+(* a seed whose answer has a leaderless partition is asked again on every retry and stays the head of the seed
+   list: the call returns nil, whatever the retry budget *)
+Lemma pass_d_head : forall answer ll n c tried b r,
+  seeds c = b :: r -> answer b = Answers ->
+  pass_d answer ll (S n) c tried [] = (c, (if ll b then PRetry b else PAnswer (RSuccess b)), tried ++ [b], []).
+Proof. intros answer ll n c tried b r E A. simpl. unfold any. rewrite E. simpl. now rewrite A. Qed.
+
+Theorem leaderless_succeeds : forall answer ll adv attempts c tried b r,
+  seeds c = b :: r -> answer b = Answers -> ll b = true ->
+  exists c' tr, refresh_d answer ll adv attempts c tried [] = (c', RSuccess b, tr, []) /\
+    seeds c' = b :: r /\ dead c' = dead c.
+Proof.
+  intros answer ll adv attempts. induction attempts as [|a IH]; intros c tried b r E A L;
+    rewrite refresh_d_unfold, (pass_d_head answer ll (size c) c tried b r E A), L.
+  - exists c, (tried ++ [b]). auto.
+  - simpl. destruct (IH {| seeds := seeds c; dead := dead c; known := adv |} (tried ++ [b]) b r E A L)
+      as (c' & tr & H & S1 & D1).
+    exists c', tr. auto.
+Qed.
+
 (* hence: whenever a call has given up and left nothing set aside — which is the case after EVERY exit that
    found nobody left to ask, past the deadline or not (previous theorem: any c' = None -> dead c' = [], and the
    resurrected seeds are then the seed list) — the next refresh asks every seed the client was ever given, and
    succeeds as soon as one of them (or a known broker) answers *)
-Theorem refresh_after_give_up : forall answer1 attempts1 c tried dl c' r tr dl',
-  refresh_d answer1 attempts1 c tried dl = (c', r, tr, dl') ->
+Theorem refresh_after_give_up : forall answer1 ll adv attempts1 c tried dl c' r tr dl',
+  refresh_d answer1 ll adv attempts1 c tried dl = (c', r, tr, dl') ->
   dead c' = [] ->
   forall answer2 attempts2,
   (exists b, In b (seedset c ++ known c') /\ answer2 b = Answers) ->
   (forall b, In b (seedset c ++ known c') -> answer2 b <> AuthFails) ->
   exists c'' b failed, refresh answer2 attempts2 c' [] = (c'', RSuccess b, failed ++ [b]) /\ answer2 b = Answers.
 Proof.
-  intros answer1 attempts1 c tried dl c' r tr dl' H D answer2 attempts2 (b0 & Hb0 & Ab0) NA.
-  destruct (refresh_d_exits _ _ _ _ _ _ _ _ _ H) as [S1 _].
+  intros answer1 ll adv attempts1 c tried dl c' r tr dl' H D answer2 attempts2 (b0 & Hb0 & Ab0) NA.
+  destruct (refresh_d_exits _ _ _ _ _ _ _ _ _ _ _ H) as [S1 _].
   assert (L : forall x, In x (live c') <-> In x (seedset c ++ known c')).
   { intro x. unfold live. rewrite !in_app_iff, <- (S1 x). unfold seedset. rewrite D, app_nil_r. reflexivity. }
   destruct (refresh_succeeds answer2 attempts2 c') as (c'' & b & failed & E & Ab & _).
@@ -120,7 +158,7 @@ Qed.
 (* the scenario of a timed-out pass: one seed, no known broker, the seed fails and the deadline passes meanwhile;
    the seed is back in the seed list, and a recovered seed makes the next refresh succeed *)
 Example deadline_example :
-  refresh_d (fun _ => Fails) 0 {| seeds := [101]; dead := []; known := [] |} [] [false; true] =
+  refresh_d (fun _ => Fails) no_ll [] 0 {| seeds := [101]; dead := []; known := [] |} [] [false; true] =
   ({| seeds := [101]; dead := []; known := [] |}, ROutOfBrokers, [101], [true]) /\
   refresh (fun _ => Answers) 0 {| seeds := [101]; dead := []; known := [] |} [] =
   ({| seeds := [101]; dead := []; known := [] |}, RSuccess 101, [101]).
